@@ -138,6 +138,7 @@ Variable native : bool.
 Variable cutover : Z -> Z.
 Variables s enc : bytes.
 Hypothesis Hn2 : (2 <= length enc)%nat.
+Hypothesis Hn4 : (length enc <= 4)%nat.   (* the native Index is called within its contract *)
 (* for a two-byte pattern the first and last byte differ (lead byte vs continuation byte) *)
 Hypothesis Hdiff : length enc = 2%nat -> nth 0 enc 0 <> nth 1 enc 0.
 
@@ -148,7 +149,7 @@ Proof. intros E. rewrite E in Hn2. cbn in Hn2. lia. Qed.
 
 Lemma last_nth : last enc 0 = nth (n - 1) enc 0.
 Proof.
-  unfold n. clear Hdiff. induction enc as [|x e IH]; [cbn in Hn2; lia|].
+  unfold n. clear Hdiff Hn4. induction enc as [|x e IH]; [cbn in Hn2; lia|].
   destruct e as [|y e]; [cbn in Hn2; lia|].
   destruct e as [|z e]; [reflexivity|].
   change (last (x :: y :: z :: e) 0) with (last (y :: z :: e) 0).
@@ -191,7 +192,7 @@ Proof.
   intros Hi Hl. set (p := Z.to_nat (i - (Z.of_nat n - 1))).
   assert (Hp : (p + (n - 1))%nat = Z.to_nat i) by (unfold p; lia).
   assert (Lr : length (removelast enc) = (n - 1)%nat).
-  { unfold n. clear Hdiff Hl Hi p Hp. destruct enc as [|x e]; [reflexivity|].
+  { unfold n. clear Hdiff Hn4 Hl Hi p Hp. destruct enc as [|x e]; [reflexivity|].
     rewrite (app_removelast_last (l := x :: e) 0) at 2 by discriminate.
     rewrite app_length. cbn [length]. lia. }
   assert (Nr : forall k, (k < n - 1)%nat -> nth k (removelast enc) 0 = nth k enc 0).
@@ -307,6 +308,7 @@ Proof.
       unfold cl in Nn. rewrite last_nth in Nn. replace (n - 1)%nat with 1%nat in Nn by lia.
       apply Hdiff; [unfold n in *; lia|]. symmetry. exact Nn.
     - apply N2. lia. }
+  unfold native_index. replace ((2 <=? len enc) && (len enc <=? 4)) with true by (unfold len; lia). cbn [bind].
   rewrite (std_index_suffix s enc (Z.to_nat from) enc_ne Hb).
   destruct (std_index (skipn (Z.to_nat from) s) enc =? -1); [reflexivity|f_equal; lia].
 Qed.
